@@ -32,6 +32,10 @@ impl<'tcx> Cx<'tcx> {
     pub fn path(&self, did: DefId) -> String {
         self.tcx.def_path_str(did)
     }
+    /// item name that never ICEs (anon consts, closures, impls have none)
+    pub fn name(&self, did: DefId) -> String {
+        cx_name(self.tcx, did)
+    }
     pub fn span(&self, sp: Span) -> J {
         let sm = self.tcx.sess.source_map();
         let exp = sp.from_expansion();
@@ -104,6 +108,13 @@ impl<'tcx> Cx<'tcx> {
             }
         }
         J::Arr(out)
+    }
+}
+
+pub fn cx_name<'tcx>(tcx: TyCtxt<'tcx>, did: DefId) -> String {
+    match tcx.opt_item_name(did) {
+        Some(s) => s.to_string(),
+        None => "_".to_string(),
     }
 }
 
@@ -236,7 +247,7 @@ fn extract<'tcx>(cx: &Cx<'tcx>, crate_name: &str, lines: &mut Vec<String>) {
                     .iter()
                     .map(|r| {
                         let d = r.owner_id.to_def_id();
-                        obj! {"path": J::s(cx.path(d)), "name": J::s(tcx.item_name(d).to_string()), "kind": J::s(format!("{:?}", tcx.def_kind(d)))}
+                        obj! {"path": J::s(cx.path(d)), "name": J::s(cx.name(d)), "kind": J::s(format!("{:?}", tcx.def_kind(d)))}
                     })
                     .collect();
                 let generics: Vec<J> = tcx
@@ -353,13 +364,13 @@ fn parent_info<'tcx>(cx: &Cx<'tcx>, did: DefId) -> J {
             } else {
                 J::Null
             };
-            obj! {"kind": J::s("impl"), "impl": J::s(cx.path(parent)), "trait": tr, "self_ty": cx.ty(self_ty), "self_adt": cx.ty_adt(self_ty), "fn": J::s(cx.path(cur)), "fn_name": J::s(tcx.item_name(cur).to_string())}
+            obj! {"kind": J::s("impl"), "impl": J::s(cx.path(parent)), "trait": tr, "self_ty": cx.ty(self_ty), "self_adt": cx.ty_adt(self_ty), "fn": J::s(cx.path(cur)), "fn_name": J::s(cx.name(cur))}
         }
         DefKind::Trait => {
-            obj! {"kind": J::s("trait"), "trait": J::s(cx.path(parent)), "fn": J::s(cx.path(cur)), "fn_name": J::s(tcx.item_name(cur).to_string())}
+            obj! {"kind": J::s("trait"), "trait": J::s(cx.path(parent)), "fn": J::s(cx.path(cur)), "fn_name": J::s(cx.name(cur))}
         }
         _ => {
-            obj! {"kind": J::s("free"), "fn": J::s(cx.path(cur)), "fn_name": J::s(tcx.item_name(cur).to_string())}
+            obj! {"kind": J::s("free"), "fn": J::s(cx.path(cur)), "fn_name": J::s(cx.name(cur))}
         }
     }
 }
@@ -414,7 +425,7 @@ fn settings_stats<'tcx>(cx: &Cx<'tcx>, lines: &mut Vec<String>) {
         let item = tcx.hir_item(id);
         if let hir::ItemKind::Trait { .. } = item.kind {
             let did = item.owner_id.to_def_id();
-            let name = tcx.item_name(did).to_string();
+            let name = cx_name(tcx, did);
             if name == "Settings" {
                 settings_trait = Some(did);
             }
